@@ -528,6 +528,7 @@ func (s *Sim) CloseAllConns() {
 	s.netMu.Unlock()
 	for _, c := range cs {
 		c.Reset()
+		c.markGone() // teardown: nobody waits for a peer any longer, whatever became of the peer's own close
 	}
 }
 
@@ -572,6 +573,9 @@ func (s *Sim) dial(ctx context.Context, role, srcIP, addr string, connectTimeout
 	remote := simAddr{addr}
 	dialErr := func(err error) error {
 		return &net.OpError{Op: "dial", Net: "tcp", Addr: remote, Err: err}
+	}
+	if s.netDown.Load() {
+		return nil, dialErr(syscall.ECONNREFUSED) // the run is over: the simulated network accepts nothing any more
 	}
 	if err := ctx.Err(); err != nil {
 		return nil, dialErr(err)
